@@ -121,9 +121,20 @@ def run(chk):
 
     # ------------------------------------------------------------ unsigned reader
     ucases = []
-    def add_unsigned(kind_code, stream, frags, bufs, dflt, kind, expect):
+    def region_unsigned(st, pos):
+        """which part of a valid unsigned stream byte `pos` belongs to: 'data' / 'checksum' (fully significant characters of the value) / other"""
+        p = 0
+        while True:
+            e = st.index(b"\r\n", p); size = int(st[p:e], 16); p = e + 2
+            if size == 0: break
+            if p <= pos < p + size: return "data"
+            p += size + 2
+        c = st.index(b":", p) + 1; e = st.index(b"\r\n", c)
+        val = st[c:e].rstrip(b"=")
+        return "checksum" if c <= pos < c + len(val) - 1 else "other"
+    def add_unsigned(kind_code, stream, frags, bufs, dflt, kind, expect, region=None):
         ucases.append((kind_code, stream, frags, bufs, dflt, {"kind": kind, "stream_len": len(stream), "dest_sizes": bufs[:20], "default_dest": dflt,
-                                                             "expect_payload": expect.hex() if expect is not None else None,
+                                                             "expect_payload": expect.hex() if expect is not None else None, "mutated_region": region,
                                                              "stream": stream.hex() if len(stream) < 500 else None}))
     ustreams = []
     for kc, kn in ((1, "crc32"), (2, "crc32c")):
@@ -144,7 +155,13 @@ def run(chk):
             add_unsigned(kc, st[:c], cut(st[:c], [], rnd.random() < 0.5), [], rnd.choice([3, 64]), "truncated", None)
         for c in range(0, len(st), 2 if quick else 1):
             m = bytearray(st); m[c] ^= rnd.choice([1, 0x20, 0x80, 0x0f]); m = bytes(m)
-            add_unsigned(kc, m, cut(m, [], False), [], rnd.choice([3, 64]), "byte-mutation", None)
+            add_unsigned(kc, m, cut(m, [], False), [], rnd.choice([3, 64]), "byte-mutation", None, region_unsigned(st, c))
+        # every character of the trailing checksum value, with the mutations that keep it a base64 letter (case flip, neighbour)
+        c0 = st.rindex(b":") + 1
+        for c in range(c0, st.index(b"\r\n", c0)):
+            for x in (0x20, 1, 2):
+                m = bytearray(st); m[c] ^= x; m = bytes(m)
+                add_unsigned(kc, m, cut(m, [], False), [], 64, "byte-mutation", None, region_unsigned(st, c))
     for st in (b"-5\r\nabc\r\n0\r\n", b"ffffffffffffffff\r\nabc", b"7fffffffffffffff\r\nabc\r\n", b"40000000\r\nabc", b" 3 \r\nabc\r\n0\r\nx-amz-checksum-crc32:AAAAAA==\r\n\r\n",
                b"3\nabc\r\n0\r\n", b"3\r\nabc\n", b"3\r\nabcd\r\n", b"\r\n", b"", b"0\r\n", b"0\r\nx-amz-checksum-crc32:AAAAAA==\r\n\r\n", b"0\r\nx-amz-checksum-crc32:AAAAAA==:\r\n\r\n",
                b"0\r\nx-amz-checksum-sha1:AAAAAA==\r\n\r\n", b"0\r\n\r\n\r\n", b"0\r\nx-amz-checksum-crc32:AAAAAA==\r\n\r", b"+3\r\nabc\r\n0\r\n"):
@@ -169,6 +186,9 @@ def run(chk):
             if not (gcls == "U_EOF" and gout == (exp or "-")):
                 chk.fail("c12:unsigned:valid-stream-rejected-or-altered", "a valid unsigned stream read with destination sizes %s.. is answered %s (payload %s)" % (
                     meta["dest_sizes"][:5] or meta["default_dest"], gcls, "equal" if gout == (exp or "-") else "DIFFERENT"), meta)
+        elif gcls == "U_EOF" and meta["kind"] == "byte-mutation" and meta.get("mutated_region") in ("data", "checksum"):
+            chk.fail("c12:unsigned:corrupted-stream-accepted:" + meta["mutated_region"], "an unsigned stream with one altered byte in its %s is accepted (clean EOF, payload %s)" % (
+                {"data": "chunk data (the trailing checksum is that of the original data)", "checksum": "trailing checksum value"}[meta["mutated_region"]], gout[:40]), meta)
         elif gcls == "U_EOF" and meta["kind"] == "truncated":
             chk.fail("c12:unsigned:truncation-accepted", "an unsigned stream cut after %d bytes is accepted (clean EOF)" % meta["stream_len"], meta)
     chk.tie("T2 utils.NewUnsignedChunkReader = extracted Model.UnsignedChunk.urun on %d (stream, buffer schedule) runs" % len(ucases), not bad, bad[:4])
